@@ -483,6 +483,7 @@ func runC13(c *report.Ctx) {
 	}
 	ruleSharedBigIntsImmutable(c, []string{pkgKeystore}, 3)
 	ruleValidatedTokensAreDecodedTokens(c)
+	ruleSentenceJudgedByWords(c)
 	ruleMnemonicWordCount(c)
 	ruleWordMapExact(c)
 }
